@@ -33,6 +33,19 @@ Definition DIAG_rx1_formula := Eval vm_compute in
     band_configs.
 Print DIAG_rx1_formula.
 
+(* (name, repeater, dwell, dr, off): accepted although dr is no data-rate of the band / off is no offset of the region *)
+Definition DIAG_rx1_uplink_dr_defined := Eval vm_compute in
+  flat_map (fun c => map (fun p => (id_of c, fst p, snd p))
+    (filter (fun p => negb (uplink_dr_check c (fst p) (snd p))) (rx1_domain c))) band_configs.
+Print DIAG_rx1_uplink_dr_defined.
+Definition DIAG_rx1_offset_in_range := Eval vm_compute in
+  flat_map (fun c => map (fun p => (id_of c, fst p, snd p))
+    (filter (fun p => negb (offset_check c (fst p) (snd p))) (rx1_domain c))) band_configs.
+Print DIAG_rx1_offset_in_range.
+Definition DIAG_known_offset_cell_not_reproduced := Eval vm_compute in
+  filter (fun x => negb (offset_refuted_check x)) c12_known_offset_cells.
+Print DIAG_known_offset_cell_not_reproduced.
+
 (* (name, repeater, dwell, uplink channel index) *)
 Definition DIAG_rx1_channel := Eval vm_compute in
   flat_map (fun c => let t := c_tab c in
